@@ -441,6 +441,14 @@ class Judge:
         self.by_key = {(e["path"], e["method"]): e for e in self.entries}
         self.by_id = {e["operation_id"]: e for e in self.entries if e.get("operation_id")}
         self.sig_seen: dict[str, int] = {}
+        self.nontriv_budget = 3000  # digests kept per document (memory); the rest is counted in `judged_cases_not_hashed`
+
+    def nontriv(self, history: list) -> None:
+        if self.nontriv_budget > 0:
+            self.nontriv_budget -= 1
+            self.res.nontriv([self.item["spec"], self.item["load"], history])
+        else:
+            self.res.count("judged_cases_not_hashed")
 
     # -- reporting -------------------------------------------------------------------------------------------
     def alarm(self, signature: dict, detail: dict) -> None:
@@ -491,7 +499,7 @@ class Judge:
             res.outcomes.add("lookup_of_malformed")
             return
         res.traces += 1
-        res.nontriv([self.item["spec"], self.item["load"], history])
+        self.nontriv(history)
         if status == "raise":
             res.outcomes.add("lookup_raised")
             self.alarm({"kind": "lookup_raises", **facts, "access": action[0], "error": _error_name(value),
@@ -526,7 +534,7 @@ class Judge:
         facts = self.facts(None, action, history)
         status, value = outcome
         res.traces += 1
-        res.nontriv([self.item["spec"], self.item["load"], history])
+        self.nontriv(history)
         if status == "raise":
             res.outcomes.add("iteration_raised")
             self.alarm({"kind": "iteration_raises", **facts, "error": _error_name(value)},
